@@ -199,6 +199,52 @@ theorem schoolbook_poly (a0 a1 a2 a3 b0 b1 b2 b3 W : Int) :
       (a2 * b3 + a3 * b2) * W ^ 5 + a3 * b3 * W ^ 6 := by
   grind
 
+/-- One row of the schoolbook product: `acc + x·b` as five limbs. -/
+theorem mac_row (c0 c1 c2 c3 x b0 b1 b2 b3 : Nat) (hc0 : c0 < W) (hc1 : c1 < W) (hc2 : c2 < W)
+    (hc3 : c3 < W) (hx : x < W) (hb0 : b0 < W) (hb1 : b1 < W) (hb2 : b2 < W) (hb3 : b3 < W) :
+    ∃ n0 n1 n2 n3 n4 q0 q1 q2, mac c0 x b0 0 = (n0, q0) ∧ mac c1 x b1 q0 = (n1, q1) ∧
+      mac c2 x b2 q1 = (n2, q2) ∧ mac c3 x b3 q2 = (n3, n4) ∧
+      n0 < W ∧ n1 < W ∧ n2 < W ∧ n3 < W ∧ n4 < W ∧
+      n0 + (n1 + n2 * W + n3 * W ^ 2 + n4 * W ^ 3) * W =
+        (c0 + c1 * W + c2 * W ^ 2 + c3 * W ^ 3) + x * (b0 + b1 * W + b2 * W ^ 2 + b3 * W ^ 3) := by
+  obtain ⟨n0, q0, e0, g0, l0, u0⟩ := mac_pair_lt c0 x b0 0 hc0 hx hb0 W_pos
+  obtain ⟨n1, q1, e1, g1, l1, u1⟩ := mac_pair_lt c1 x b1 q0 hc1 hx hb1 u0
+  obtain ⟨n2, q2, e2, g2, l2, u2⟩ := mac_pair_lt c2 x b2 q1 hc2 hx hb2 u1
+  obtain ⟨n3, n4, e3, g3, l3, u3⟩ := mac_pair_lt c3 x b3 q2 hc3 hx hb3 u2
+  refine ⟨n0, n1, n2, n3, n4, q0, q1, q2, e0, e1, e2, e3, l0, l1, l2, l3, u3, ?_⟩
+  have e : x * (b0 + b1 * W + b2 * W ^ 2 + b3 * W ^ 3) =
+      x * b0 + x * b1 * W + x * b2 * W ^ 2 + x * b3 * W ^ 3 := by
+    simp only [Nat.mul_add, Nat.mul_assoc]
+  rw [e]
+  simp only [W2_lit, W3_lit] at *
+  simp only [W1_lit] at *
+  omega
+
+theorem rows_poly (p0 s1 u2 P S U X a0 a1 a2 a3 B W : Int)
+    (h0 : p0 + P * W = a0 * B) (h1 : s1 + S * W = P + a1 * B) (h2 : u2 + U * W = S + a2 * B)
+    (h3 : X = U + a3 * B) :
+    p0 + s1 * W + u2 * W ^ 2 + X * W ^ 3 = (a0 + a1 * W + a2 * W ^ 2 + a3 * W ^ 3) * B := by
+  have e0 : p0 = a0 * B - P * W := by omega
+  have e1 : s1 = P + a1 * B - S * W := by omega
+  have e2 : u2 = S + a2 * B - U * W := by omega
+  subst e0 e1 e2 h3
+  grind
+
+theorem rows_poly_nat (p0 s1 u2 P S U X a0 a1 a2 a3 B W : Nat)
+    (h0 : p0 + P * W = a0 * B) (h1 : s1 + S * W = P + a1 * B) (h2 : u2 + U * W = S + a2 * B)
+    (h3 : X = U + a3 * B) :
+    p0 + s1 * W + u2 * W ^ 2 + X * W ^ 3 = (a0 + a1 * W + a2 * W ^ 2 + a3 * W ^ 3) * B := by
+  have := rows_poly p0 s1 u2 P S U X a0 a1 a2 a3 B W (by exact_mod_cast h0) (by exact_mod_cast h1)
+    (by exact_mod_cast h2) (by exact_mod_cast h3)
+  exact_mod_cast this
+
+theorem regroup8 (p0 s1 u2 w3 w4 w5 w6 w7 W : Nat) :
+    p0 + s1 * W + u2 * W ^ 2 + w3 * W ^ 3 + w4 * W ^ 4 + w5 * W ^ 5 + w6 * W ^ 6 + w7 * W ^ 7 =
+      p0 + s1 * W + u2 * W ^ 2 + (w3 + (w4 + w5 * W + w6 * W ^ 2 + w7 * W ^ 3) * W) * W ^ 3 := by
+  have : ((p0 : Int) + s1 * W + u2 * W ^ 2 + w3 * W ^ 3 + w4 * W ^ 4 + w5 * W ^ 5 + w6 * W ^ 6 + w7 * W ^ 7 =
+      p0 + s1 * W + u2 * W ^ 2 + (w3 + (w4 + w5 * W + w6 * W ^ 2 + w7 * W ^ 3) * W) * W ^ 3) := by grind
+  exact_mod_cast this
+
 /-- The 4×4 schoolbook product: the eight limbs are `u64`s and denote `a·b` exactly. -/
 theorem schoolbook_spec (a b : L4) (ha : a.wf) (hb : b.wf) :
     ∃ r0 r1 r2 r3 r4 r5 r6 r7, schoolbook a b = (r0, r1, r2, r3, r4, r5, r6, r7) ∧
@@ -209,48 +255,66 @@ theorem schoolbook_spec (a b : L4) (ha : a.wf) (hb : b.wf) :
   obtain ⟨ha0, ha1, ha2, ha3⟩ := ha
   obtain ⟨hb0, hb1, hb2, hb3⟩ := hb
   simp only [schoolbook, L4.val, val8] at *
-  obtain ⟨p0, q0, e0, g0, lp0, lq0⟩ := mac_pair_lt 0 a0 b0 0 W_pos ha0 hb0 W_pos
-  simp only [e0]
-  obtain ⟨p1, q1, e1, g1, lp1, lq1⟩ := mac_pair_lt 0 a0 b1 q0 W_pos ha0 hb1 lq0
-  simp only [e1]
-  obtain ⟨p2, q2, e2, g2, lp2, lq2⟩ := mac_pair_lt 0 a0 b2 q1 W_pos ha0 hb2 lq1
-  simp only [e2]
-  obtain ⟨p3, p4, e3, g3, lp3, lp4⟩ := mac_pair_lt 0 a0 b3 q2 W_pos ha0 hb3 lq2
-  simp only [e3]
-  obtain ⟨s1, t0, e4, g4, ls1, lt0⟩ := mac_pair_lt p1 a1 b0 0 lp1 ha1 hb0 W_pos
-  simp only [e4]
-  obtain ⟨s2, t1, e5, g5, ls2, lt1⟩ := mac_pair_lt p2 a1 b1 t0 lp2 ha1 hb1 lt0
-  simp only [e5]
-  obtain ⟨s3, t2, e6, g6, ls3, lt2⟩ := mac_pair_lt p3 a1 b2 t1 lp3 ha1 hb2 lt1
-  simp only [e6]
-  obtain ⟨s4, s5, e7, g7, ls4, ls5⟩ := mac_pair_lt p4 a1 b3 t2 lp4 ha1 hb3 lt2
-  simp only [e7]
-  obtain ⟨u2, v0, e8, g8, lu2, lv0⟩ := mac_pair_lt s2 a2 b0 0 ls2 ha2 hb0 W_pos
-  simp only [e8]
-  obtain ⟨u3, v1, e9, g9, lu3, lv1⟩ := mac_pair_lt s3 a2 b1 v0 ls3 ha2 hb1 lv0
-  simp only [e9]
-  obtain ⟨u4, v2, e10, g10, lu4, lv2⟩ := mac_pair_lt s4 a2 b2 v1 ls4 ha2 hb2 lv1
-  simp only [e10]
-  obtain ⟨u5, u6, e11, g11, lu5, lu6⟩ := mac_pair_lt s5 a2 b3 v2 ls5 ha2 hb3 lv2
-  simp only [e11]
-  obtain ⟨w3, z0, e12, g12, lw3, lz0⟩ := mac_pair_lt u3 a3 b0 0 lu3 ha3 hb0 W_pos
-  simp only [e12]
-  obtain ⟨w4, z1, e13, g13, lw4, lz1⟩ := mac_pair_lt u4 a3 b1 z0 lu4 ha3 hb1 lz0
-  simp only [e13]
-  obtain ⟨w5, z2, e14, g14, lw5, lz2⟩ := mac_pair_lt u5 a3 b2 z1 lu5 ha3 hb2 lz1
-  simp only [e14]
-  obtain ⟨w6, w7, e15, g15, lw6, lw7⟩ := mac_pair_lt u6 a3 b3 z2 lu6 ha3 hb3 lz2
-  simp only [e15]
+  obtain ⟨p0, p1, p2, p3, p4, _, _, _, e0, e1, e2, e3, lp0, lp1, lp2, lp3, lp4, v0⟩ :=
+    mac_row 0 0 0 0 a0 b0 b1 b2 b3 W_pos W_pos W_pos W_pos ha0 hb0 hb1 hb2 hb3
+  simp only [e0, e1, e2, e3]
+  obtain ⟨s1, s2, s3, s4, s5, _, _, _, f0, f1, f2, f3, ls1, ls2, ls3, ls4, ls5, v1⟩ :=
+    mac_row p1 p2 p3 p4 a1 b0 b1 b2 b3 lp1 lp2 lp3 lp4 ha1 hb0 hb1 hb2 hb3
+  simp only [f0, f1, f2, f3]
+  obtain ⟨u2, u3, u4, u5, u6, _, _, _, g0, g1, g2, g3, lu2, lu3, lu4, lu5, lu6, v2⟩ :=
+    mac_row s2 s3 s4 s5 a2 b0 b1 b2 b3 ls2 ls3 ls4 ls5 ha2 hb0 hb1 hb2 hb3
+  simp only [g0, g1, g2, g3]
+  obtain ⟨w3, w4, w5, w6, w7, _, _, _, k0, k1, k2, k3, lw3, lw4, lw5, lw6, lw7, v3⟩ :=
+    mac_row u3 u4 u5 u6 a3 b0 b1 b2 b3 lu3 lu4 lu5 lu6 ha3 hb0 hb1 hb2 hb3
+  simp only [k0, k1, k2, k3]
   refine ⟨p0, s1, u2, w3, w4, w5, w6, w7, rfl, lp0, ls1, lu2, lw3, lw4, lw5, lw6, lw7, ?_⟩
-  have e : (a0 + a1 * W + a2 * W ^ 2 + a3 * W ^ 3) * (b0 + b1 * W + b2 * W ^ 2 + b3 * W ^ 3) =
-      a0 * b0 + (a0 * b1 + a1 * b0) * W + (a0 * b2 + a1 * b1 + a2 * b0) * W ^ 2 +
-      (a0 * b3 + a1 * b2 + a2 * b1 + a3 * b0) * W ^ 3 + (a1 * b3 + a2 * b2 + a3 * b1) * W ^ 4 +
-      (a2 * b3 + a3 * b2) * W ^ 5 + a3 * b3 * W ^ 6 := by
-    have := schoolbook_poly (a0 : Int) a1 a2 a3 b0 b1 b2 b3 W
-    exact_mod_cast this
-  rw [e]
-  simp only [W2_lit, W3_lit, W4_eq, W5_lit, W6_lit, W7_lit] at *
+  simp only [Nat.zero_mul, Nat.add_zero, Nat.zero_add] at v0
+  rw [regroup8]
+  exact rows_poly_nat p0 s1 u2 _ _ _ _ a0 a1 a2 a3 _ W v0 v1 v2 v3
+
+theorem L4.val_lt (a : L4) (ha : a.wf) : a.val < W ^ 4 := by
+  obtain ⟨a0, a1, a2, a3⟩ := a
+  obtain ⟨h0, h1, h2, h3⟩ := ha
+  simp only [L4.val, W4_eq, W2_lit, W3_lit] at *
   simp only [W1_lit] at *
   omega
+
+/-- `mul_ref` / `mul_const`: for `u64` limbs with `a·b < M·2^256` the result is `< M` and
+`result·2^256 ≡ a·b (mod M)`. -/
+theorem mulL_core (p : MontParams) (a b : L4) (hm : p.m.wf) (ha : a.wf) (hb : b.wf)
+    (hinv : p.m.l0 * p.inv % W = W - 1) (h2m : 2 * p.m.val ≤ W ^ 4)
+    (hT : a.val * b.val < p.m.val * W ^ 4) :
+    (mulL p a b).wf ∧ (mulL p a b).val < p.m.val ∧
+    (mulL p a b).val * W ^ 4 % p.m.val = a.val * b.val % p.m.val := by
+  obtain ⟨r0, r1, r2, r3, r4, r5, r6, r7, e, l0, l1, l2, l3, l4, l5, l6, l7, hv⟩ := schoolbook_spec a b ha hb
+  simp only [mulL, e]
+  rw [← hv] at hT ⊢
+  exact montReduce_core p r0 r1 r2 r3 r4 r5 r6 r7 hm l0 l1 l2 l3 l4 l5 l6 l7 hinv h2m hT
+
+/-- A product with one canonical factor is in the range of the reduction. -/
+theorem mul_lt_of_right_lt (a b M : Nat) (ha : a < W ^ 4) (hb : b < M) : a * b < M * W ^ 4 := by
+  have hM : 0 < M := by omega
+  calc a * b ≤ a * M := Nat.mul_le_mul_left _ (Nat.le_of_lt hb)
+    _ < W ^ 4 * M := Nat.mul_lt_mul_of_pos_right ha hM
+    _ = M * W ^ 4 := Nat.mul_comm _ _
+
+/-- `to_bytes` (limb part): `montgomery_reduce(a, 0, 0, 0, 0)` is `< M` and `·2^256 ≡ a`. -/
+theorem toCanonL_core (p : MontParams) (a : L4) (hm : p.m.wf) (ha : a.wf)
+    (hinv : p.m.l0 * p.inv % W = W - 1) (h2m : 2 * p.m.val ≤ W ^ 4) (hpos : 0 < p.m.val) :
+    (toCanonL p a).wf ∧ (toCanonL p a).val < p.m.val ∧
+    (toCanonL p a).val * W ^ 4 % p.m.val = a.val % p.m.val := by
+  obtain ⟨h0, h1, h2, h3⟩ := ha
+  have hv : val8 a.l0 a.l1 a.l2 a.l3 0 0 0 0 = a.val := by
+    unfold val8 L4.val
+    omega
+  have hT : val8 a.l0 a.l1 a.l2 a.l3 0 0 0 0 < p.m.val * W ^ 4 := by
+    rw [hv]
+    have := L4.val_lt a ⟨h0, h1, h2, h3⟩
+    calc a.val < W ^ 4 := this
+      _ = 1 * W ^ 4 := (Nat.one_mul _).symm
+      _ ≤ p.m.val * W ^ 4 := Nat.mul_le_mul_right _ hpos
+  have := montReduce_core p a.l0 a.l1 a.l2 a.l3 0 0 0 0 hm h0 h1 h2 h3 W_pos W_pos W_pos W_pos hinv h2m hT
+  rw [hv] at this
+  exact this
 
 end MidnightZK.C10
